@@ -222,7 +222,7 @@ inductive Res (α : Type) where
   | ok (a : α)
   | err (e : DErr)
   | panic
-deriving Repr
+deriving Repr, DecidableEq
 
 /-- `Shredder::shred` for the four shredders (`sk`: the leader's key, `key`: the fresh cipher key):
     `data_and_coding_to_output_shreds` after the shredder-specific part. `panic`: the `assert_eq!` of
@@ -288,19 +288,23 @@ def recOf (shreds : List (Option VShred)) (nd : Nat) : List (Nat × Bytes) :=
 
 def lookup (l : List (Nat × Bytes)) (i : Nat) : Option Bytes := (l.find? (·.1 == i)).map (·.2)
 
+/-- `shreds.any_shred().payload().data.len()` -/
+def anySize (shreds : List (Option VShred)) : Nat :=
+  match anyShred shreds with
+  | some a => a.shred.data.length
+  | none => 0
+
+/-- data shard `i`: the received one, else `restored.restored_original(i)` -/
+def mergeShard (env : Env) (nc sb : Nat) (orig rcv : List (Nat × Bytes)) (i : Nat) : Bytes :=
+  match lookup orig i with
+  | some d => d
+  | none => env.restore nc sb orig rcv i
+
 /-- `ReedSolomonCoder::deshred` (coder built with `nc` recovery shards; `nd` of `ValidatedShreds`) -/
 def coderDeshred (env : Env) (nc nd : Nat) (shreds : List (Option VShred)) : Except DErr (Bytes × Raw) :=
   if count shreds < DATA then .error .notEnoughShreds
   else
-    let sb := match anyShred shreds with
-      | some a => a.shred.data.length
-      | none => 0
-    let orig := origOf shreds nd
-    let rcv := recOf shreds nd
-    let shards := (List.range DATA).map fun i =>
-      match lookup orig i with
-      | some d => d
-      | none => env.restore nc sb orig rcv i
+    let shards := (List.range DATA).map (mergeShard env nc (anySize shreds) (origOf shreds nd) (recOf shreds nd))
     -- `restored_payload.len() + shred_data.len() > MAX_DATA_PER_SLICE_AFTER_PADDING` inside the loop:
     -- the running length is monotone, so the loop fails iff the total exceeds the bound
     if shards.flatten.length > MAX_AFTER_PADDING then .error .tooMuchData
